@@ -1,6 +1,6 @@
 (* C20 -- property theorems only; each closed by `exact` and followed by Print Assumptions. *)
 Require Import SF.Prelude SF.RelJoin SF.RelShift SF.RelStack SF.RelPivot.
-Require Import Gen.Gen_c20 Proofs.RelJoinDefaults.
+Require Import Gen.Gen_c20 Proofs.RelJoinDefaults Proofs.RelStackGen.
 Require Import Proofs.RelJoinSpec Proofs.RelJoinRefine Proofs.RelJoinSingle Proofs.RelShiftFacts Proofs.RelStackFacts Proofs.RelStackRefine Proofs.RelPivotFacts.
 
 (* ===================================================================== joins *)
@@ -219,12 +219,14 @@ Theorem C20_stack_refines : forall (R G T A : Type) (reqb : R -> R -> bool) (geq
 Proof. exact (@stack_refines). Qed.
 Print Assumptions C20_stack_refines.
 
+(* over the flag REGENERATED from frame.py (false since /repo 8198989): unconditional in the fill value and in
+   whatever NumPy does when casting it; reverting the repair breaks this obligation *)
 Theorem C20_unstack_refines : forall (G T C A : Type) (geqb : G -> G -> bool) (teqb : T -> T -> bool) (ceqb : C -> C -> bool),
   (forall a b, geqb a b = true <-> a = b) -> (forall a b, teqb a b = true <-> a = b) -> (forall a b, ceqb a b = true <-> a = b) ->
-  forall cast_src fill castfill (f : sframe A (G * T) C),
-  NoDup (sf_rows f) -> NoDup (sf_cols f) -> (cast_src = true -> fill_castable fill castfill) ->
-  M_unstack geqb teqb cast_src fill castfill f = Ok (S_unstack geqb teqb ceqb fill f).
-Proof. exact (@unstack_refines). Qed.
+  forall (fill : A) castfill (f : sframe A (G * T) C),
+  NoDup (sf_rows f) -> NoDup (sf_cols f) ->
+  M_unstack geqb teqb gen_unstack_dtype_from_last_group fill castfill f = Ok (S_unstack geqb teqb ceqb fill f).
+Proof. exact (@unstack_refines_regenerated). Qed.
 Print Assumptions C20_unstack_refines.
 
 (* ===================================================================== pivot *)
